@@ -215,7 +215,7 @@ package jsonschema
 
 //@ contract property(v, name)
 //@   requires kind: kind(v) == 21 || kind(v) == 25
-//@   requires keytype: kind(v) == 21 ==> (tkey(rtype(v)) == T_string || tkind(tkey(rtype(v))) == 20)
+//@   requires keytype: kind(v) == 21 ==> (tkind(tkey(rtype(v))) == 24 || tkind(tkey(rtype(v))) == 20)
 //@   pure
 //@   ensures kind(v) == 21 ==> (kind(result) != 0) == rvhas(v, name)
 //@   ensures kind(v) == 21 && rvhas(v, name) ==> result == rvget(v, name)
